@@ -80,6 +80,33 @@ def common_scenario(rnd, sid):
     return s
 
 
+def limit_scenario(rnd, sid):
+    """a small tank that is filled to its maximum level (through a pump or a pipe that ends at the tank) while demand is
+    low and drained towards its minimum when demand is high: both engines must shut the tank in and re-open it alike"""
+    import c02
+    s = c02.base(sid, "default")
+    H = 3600
+    s["H"], s["Pat"], s["PatStart"], s["Rs"], s["all"] = H, H, 0, 360, False
+    nlow = rnd.randint(4, 6)
+    s["patterns"] = {"dem": [0.2] * nlow + [rnd.choice([2.5, 3.0])] * rnd.randint(5, 7)}
+    s["Dur"] = H * (len(s["patterns"]["dem"]) - 1)
+    maxl = netgen.rgrid(rnd, 4, 6, 0.5)
+    s["nodes"] = [{"name": "R0", "type": "R", "elev": 0.0, "head": netgen.rgrid(rnd, 8, 12, 1), "pat": ""},
+                  {"name": "T0", "type": "T", "elev": 20.0, "minl": 0.5, "maxl": maxl, "init": netgen.rgrid(rnd, 2, 3, 0.5),
+                   "diam": netgen.rgrid(rnd, 16, 24, 2), "vcurve": [], "leak": {"on": False, "area": 0.0, "cd": 0.75, "start": -1, "end": -1}},
+                  c02.junction("J0", 8.0, []), c02.junction("J1", 5.0, [{"base": 0.02, "pat": "dem"}]),
+                  c02.junction("J2", 4.0, [{"base": 0.01, "pat": "dem"}])]
+
+    def pipe(name, a, b, L, d):
+        return {"name": name, "type": "pipe", "a": a, "b": b, "len": L, "diam": d, "rough": 110.0, "minor": 0.0, "cv": False, "init": 1}
+    fam = netgen.pump_family(rnd, 1)
+    fam.update({"A": 4 * 30.0 / 3, "B": 30.0 / (3 * 0.05 * 0.05), "curve": [[0.05, 30.0]]})
+    pump = {"name": "PU", "type": "headpump", "a": "J0", "b": "T0", "init": 1}
+    pump.update(fam)
+    s["links"] = [pipe("P0", "R0", "J0", 50.0, 0.4), pump, pipe("P1", "T0", "J1", 300.0, 0.3), pipe("P2", "J1", "J2", 200.0, 0.25)]
+    return s
+
+
 def table(s, res, names_n, names_l):
     rows = []
     for i, t in enumerate(res.node["head"].index):
@@ -133,7 +160,7 @@ def one(job):
     sid, seed, units = job
     w = common.import_wntr()
     rnd = random.Random(seed)
-    s = common_scenario(rnd, sid)
+    s = limit_scenario(rnd, sid) if sid % 6 == 5 else common_scenario(rnd, sid)
     names_n = [n["name"] for n in s["nodes"]]
     names_l = [l["name"] for l in s["links"]]
     out = {"seed": seed, "features": sorted(netgen.features_of(s)), "cases": [],
@@ -166,8 +193,16 @@ def one(job):
             wn.options.hydraulic.inpfile_units = u
             re_ = sim.run_sim(file_prefix=os.path.join(d, "e_%s" % u), version=2.2)
             E = table(s, re_, names_n, names_l)
-            out["cases"].append(("agree", u, dict(keys, clause="C03.agree_values", a=W, b=E, atol=common.num(2e-2), rtol=common.num(2e-3),
-                                                  qsmall=common.num(1e-4))))
+            if sid % 6 == 5:
+                # tank-limit subjects: the engines shut a full / empty tank in and re-open it by different event logic (EPANET
+                # inserts exact fill times, WNTR whole seconds and a head tolerance), which moves levels by centimetres:
+                # heads and pressures are compared at 0.1 m (a tank that is not shut in at all is off by metres)
+                hp = [k for k in keys["numkeys"] if k[:2] in ("h_", "p_")]
+                out["cases"].append(("agree", u, dict(keys, numkeys=hp, clause="C03.agree_values", a=W, b=E, atol=common.num(0.1),
+                                                      rtol=common.num(2e-3), qsmall=common.num(1e-3))))
+            else:
+                out["cases"].append(("agree", u, dict(keys, clause="C03.agree_values", a=W, b=E, atol=common.num(2e-2), rtol=common.num(2e-3),
+                                                      qsmall=common.num(1e-4))))
             # reader validation: toolkit on the text vs read_inpfile -> EpanetSimulator
             T = toolkit_run(w, inp, u, names_n, names_l, d)
             wn_r = w.network.read_inpfile(inp)
